@@ -223,6 +223,11 @@ def run(ctx):
                               extra_random=100 if ctx.quick else 1000, tlc_kw={"workers": TLC_WORKERS})
         if g is not None:
             check_deterministic(g, tag)
+    # the hand-runnable instance (spec/Async/Async_small.tla) stays checked as well
+    res = ctx.tlc("Async", "Async_small", os.path.join(vlib.VERIF, "spec/Async/Async_small.cfg"), "small",
+                  workers=TLC_WORKERS)
+    if res.violation:
+        ctx.tlc_violation(res, "Async:Async_small.cfg")
     ctx.assume("programs are the generated families (start mode x completion x type x nesting <= 3 x in-coroutine "
                "start mode); bodies are the harness's script interpreter, values are small integers")
     ctx.assume("'completion on another thread' = the promise of the awaited future is called on a fresh thread "
